@@ -3,26 +3,34 @@
    Part 1 — reference counting and delivery.  One model event = one atomic step of the real code
    (a channel operation, a WaitGroup operation, or a critical section of l.mu):
 
-     SessionUp      listenLoop's per-connection goroutine, lines 74-88: under l.mu, if l.closed = 1 the
-                    session is closed on the spot, else wg.Add(1); l.sessions[session] = wg
+     SessionUp      listenLoop's per-connection goroutine: under l.mu, if l.closed = 1 the session is
+                    closed on the spot, else wg.Add(1); l.sessions[session] = wg
      StreamIn s     the event loop of session s puts a new stream into acceptCh (session.go getStream)
-     Wrap s         AcceptStream returned a stream (line 97); newStreamWrapper: wg.Add(1) (114, 191)
-     Enqueue s      the select of lines 115-119 takes `l.backlog <- conn`
-     Lose s         the same select takes `<-l.closeCh`: the goroutine returns, the wrapper is dropped
+     Wrap s         AcceptStream returned a stream; newStreamWrapper: wg.Add(1)
+     Enqueue s      the delivery select takes `l.backlog <- conn`; the goroutine goes on to re-check closeCh
+     Lose s         the delivery select takes `<-l.closeCh`: the goroutine takes the conn aside to Close it
+                    (`_ = conn.Close(); return`)
+     PostCheck s    after a successful enqueue: `select { case <-l.closeCh: drain; return  default: }`
+     GDrain s       one round of drainBacklog run by the accept goroutine: receive one conn from the
+                    backlog (to Close it), or - backlog empty - finish and return
      SessionDie s   the session shuts down for an outside reason (peer gone, protocol error)
-     AcceptErr s    AcceptStream returned an error (98-111): session.Close(); under l.mu delete + Done
-                    only if the session is still in the map; return
+     AcceptErr s    AcceptStream returned an error: session.Close(); under l.mu delete + Done only if the
+                    session is still in the map; return
      Accept         listener.Accept takes `conn := <-l.backlog`
      AcceptFail     listener.Accept takes `<-l.closeCh` and returns an error
      WClose w       streamWrapper.Close on a conn the user obtained from Accept: CAS closed 0->1, then
                     stream.Close and wg.Done; a failed CAS does nothing
-     LMark          listener.Close line 140: CAS l.closed 0->1
-     LSignal        line 144: close(l.closeCh) (only by the caller whose CAS succeeded, hence once)
-     LRelease       lines 147-152: under l.mu, wg.Done() for every session in the map; clear the map
+     CloseTaken w   the adapter Closes a conn it took aside (after Lose, or received by a drain)
+     LCall          a goroutine calls listener.Close (calls may overlap: each is a thread of its own)
+     LStep k        next step of the k-th Close call:
+                      CStart : CAS l.closed 0->1 (the winner goes on to close closeCh)
+                      CSig   : close(l.closeCh)
+                      CDrain : one round of drainBacklog (receive one conn to Close it, or finish)
+                      CRel   : under l.mu, wg.Done() for every session in the map; clear the map; return
 
    wg.Done() that makes the counter negative PANICS (sync: negative WaitGroup counter): explicit flag.
-   The goroutine `wg.Wait(); session.Close()` (90-94) is folded into Done: the counter reaching zero
-   sets wg_zero and sclosed (that the parked waiter then runs is Go-runtime behaviour).
+   The goroutine `wg.Wait(); session.Close()` is folded into Done: the counter reaching zero sets
+   wg_zero and sclosed (that the parked waiter then runs is Go-runtime behaviour).
 
    Part 2 — the io.Reader / io.Writer face: linkedBuffer.read (buffer.go 275-298) over a list of
    slices, copyWriteAndFlush (118-129).                                                         *)
@@ -34,12 +42,13 @@ Open Scope Z_scope.
 (* Part 1                                                                                       *)
 (* ------------------------------------------------------------------------------------------ *)
 
-Inductive loop_pc := LAccepting | LSelecting (w : nat) | LExited.
+Inductive loop_pc := LAccepting | LSelecting (w : nat) | LPostEnq | LDraining | LExited.
+Inductive close_pc := CStart | CSig | CDrain | CRel | CDone.
 
 Record sess := {
   refs : Z;            (* the sync.WaitGroup counter *)
   in_map : bool;       (* session is a key of l.sessions *)
-  registered : bool;   (* ghost: went through lines 85-88 (false: rejected because l.closed was 1) *)
+  registered : bool;   (* ghost: went through wg.Add(1); l.sessions[session] = wg (false: rejected, l.closed was 1) *)
   sclosed : bool;      (* session.Close has been called / the session is shut down *)
   wg_zero : bool;      (* ghost: the counter has reached zero (the wg.Wait goroutine was released) *)
   loop : loop_pc;      (* the per-session accept goroutine *)
@@ -52,14 +61,17 @@ Record wrapper := { w_sess : nat; w_ord : nat (* ghost: k-th stream of its sessi
 Record state := {
   nsess : nat; sess_of : nat -> sess;
   nwr : nat; wr : nat -> wrapper;
+  ncl : nat; cl_of : nat -> close_pc;   (* the calls of listener.Close *)
   cap : nat;                 (* capacity of the backlog channel *)
   backlog : list nat;        (* wrapper ids, head = next to be received *)
   delivered : list nat;      (* ghost: ids returned by Accept, in order *)
-  lost : list nat;           (* ghost: ids dropped by the select (lost to closeCh) *)
+  closing : list nat;        (* conns taken aside by the adapter, about to be Closed by it *)
+  aclosed : list nat;        (* ghost: conns the adapter has Closed *)
   enq_log : list nat;        (* ghost: ids ever sent into the backlog, in order *)
+  recv_log : list nat;       (* ghost: ids ever received from the backlog (by Accept or by a drain), in order *)
   lmark : bool;              (* l.closed *)
   closeCh : bool;            (* l.closeCh is closed *)
-  lreleased : bool;          (* ghost: lines 147-152 have run at least once *)
+  lreleased : bool;          (* ghost: some Close call has run its release section *)
   panic : bool }.
 
 Definition dflt_sess : sess :=
@@ -68,8 +80,9 @@ Definition dflt_sess : sess :=
 Definition dflt_wr : wrapper := {| w_sess := 0; w_ord := 0; w_closed := false |}.
 
 Definition init (c : nat) : state :=
-  {| nsess := 0; sess_of := fun _ => dflt_sess; nwr := 0; wr := fun _ => dflt_wr; cap := c;
-     backlog := []; delivered := []; lost := []; enq_log := [];
+  {| nsess := 0; sess_of := fun _ => dflt_sess; nwr := 0; wr := fun _ => dflt_wr;
+     ncl := 0; cl_of := fun _ => CDone; cap := c;
+     backlog := []; delivered := []; closing := []; aclosed := []; enq_log := []; recv_log := [];
      lmark := false; closeCh := false; lreleased := false; panic := false |}.
 
 Definition updf {A} (f : nat -> A) (k : nat) (v : A) : nat -> A :=
@@ -83,21 +96,46 @@ Definition done1 (x : sess) : sess :=
      loop := loop x; inq := inq x; arrived := arrived x; wrapped := wrapped x |}.
 Definition done_panics (x : sess) : bool := refs x - 1 <? 0.
 
+(* generic field updates (everything else unchanged) *)
+Definition set_sessions (st : state) (f : nat -> sess) (p : bool) : state :=
+  {| nsess := nsess st; sess_of := f; nwr := nwr st; wr := wr st; ncl := ncl st; cl_of := cl_of st; cap := cap st;
+     backlog := backlog st; delivered := delivered st; closing := closing st; aclosed := aclosed st;
+     enq_log := enq_log st; recv_log := recv_log st; lmark := lmark st; closeCh := closeCh st; lreleased := lreleased st;
+     panic := panic st || p |}.
 Definition set_sess (st : state) (s : nat) (x : sess) (p : bool) : state :=
-  {| nsess := nsess st; sess_of := updf (sess_of st) s x; nwr := nwr st; wr := wr st; cap := cap st;
-     backlog := backlog st; delivered := delivered st; lost := lost st; enq_log := enq_log st;
-     lmark := lmark st; closeCh := closeCh st; lreleased := lreleased st; panic := panic st || p |}.
+  set_sessions st (updf (sess_of st) s x) p.
+Definition set_cl (st : state) (k : nat) (c : close_pc) : state :=
+  {| nsess := nsess st; sess_of := sess_of st; nwr := nwr st; wr := wr st; ncl := ncl st;
+     cl_of := updf (cl_of st) k c; cap := cap st;
+     backlog := backlog st; delivered := delivered st; closing := closing st; aclosed := aclosed st;
+     enq_log := enq_log st; recv_log := recv_log st; lmark := lmark st; closeCh := closeCh st; lreleased := lreleased st;
+     panic := panic st |}.
+(* receive the head of the backlog and take it aside for Close *)
+Definition take_head (st : state) : state :=
+  match backlog st with
+  | [] => st
+  | w :: r =>
+    {| nsess := nsess st; sess_of := sess_of st; nwr := nwr st; wr := wr st; ncl := ncl st; cl_of := cl_of st; cap := cap st;
+       backlog := r; delivered := delivered st; closing := closing st ++ [w]; aclosed := aclosed st;
+       enq_log := enq_log st; recv_log := recv_log st ++ [w]; lmark := lmark st; closeCh := closeCh st; lreleased := lreleased st;
+       panic := panic st |}
+  end.
 
 Inductive event :=
 | SessionUp | StreamIn (s : nat) | Wrap (s : nat) | Enqueue (s : nat) | Lose (s : nat)
+| PostCheck (s : nat) | GDrain (s : nat)
 | SessionDie (s : nat) | AcceptErr (s : nat)
-| Accept | AcceptFail | WClose (w : nat)
-| LMark | LSignal | LRelease.
+| Accept | AcceptFail | WClose (w : nat) | CloseTaken (w : nat)
+| LCall | LStep (k : nat).
 
 Definition mem (w : nat) (l : list nat) : bool := existsb (Nat.eqb w) l.
+Definition remove_w (w : nat) (l : list nat) : list nat := filter (fun x => negb (Nat.eqb x w)) l.
 
 Definition is_accepting (p : loop_pc) : bool := match p with LAccepting => true | _ => false end.
 Definition is_selecting (p : loop_pc) : bool := match p with LSelecting _ => true | _ => false end.
+Definition is_postenq (p : loop_pc) : bool := match p with LPostEnq => true | _ => false end.
+Definition is_draining (p : loop_pc) : bool := match p with LDraining => true | _ => false end.
+Definition is_cdone (c : close_pc) : bool := match c with CDone => true | _ => false end.
 
 Definition enabled (st : state) (e : event) : bool :=
   match e with
@@ -106,14 +144,16 @@ Definition enabled (st : state) (e : event) : bool :=
   | Wrap s => (s <? nsess st)%nat && is_accepting (loop (sess_of st s)) && (0 <? inq (sess_of st s))%nat
   | Enqueue s => (s <? nsess st)%nat && is_selecting (loop (sess_of st s)) && (length (backlog st) <? cap st)%nat
   | Lose s => (s <? nsess st)%nat && is_selecting (loop (sess_of st s)) && closeCh st
+  | PostCheck s => (s <? nsess st)%nat && is_postenq (loop (sess_of st s))
+  | GDrain s => (s <? nsess st)%nat && is_draining (loop (sess_of st s))
   | SessionDie s => (s <? nsess st)%nat
   | AcceptErr s => (s <? nsess st)%nat && is_accepting (loop (sess_of st s)) && sclosed (sess_of st s)
   | Accept => match backlog st with [] => false | _ => true end
   | AcceptFail => closeCh st
   | WClose w => mem w (delivered st)
-  | LMark => true
-  | LSignal => lmark st && negb (closeCh st)
-  | LRelease => lmark st
+  | CloseTaken w => mem w (closing st)
+  | LCall => true
+  | LStep k => (k <? ncl st)%nat && negb (is_cdone (cl_of st k))
   end.
 
 Definition with_loop (x : sess) (p : loop_pc) : sess :=
@@ -130,6 +170,19 @@ Definition release1 (n : nat) (f : nat -> sess) : nat -> sess :=
 Definition release_panics (n : nat) (f : nat -> sess) : bool :=
   existsb (fun k => in_map (f k) && done_panics (f k)) (seq 0 n).
 
+(* conn.Close() by whoever holds the conn: CAS; stream.Close; wg.Done *)
+Definition close_wrapper (st : state) (w : nat) : state :=
+  let x := wr st w in
+  if w_closed x then st
+  else
+    let s := w_sess x in
+    {| nsess := nsess st; sess_of := updf (sess_of st) s (done1 (sess_of st s)); nwr := nwr st;
+       wr := updf (wr st) w {| w_sess := s; w_ord := w_ord x; w_closed := true |};
+       ncl := ncl st; cl_of := cl_of st; cap := cap st;
+       backlog := backlog st; delivered := delivered st; closing := closing st; aclosed := aclosed st;
+       enq_log := enq_log st; recv_log := recv_log st; lmark := lmark st; closeCh := closeCh st; lreleased := lreleased st;
+       panic := panic st || done_panics (sess_of st s) |}.
+
 Definition step (st : state) (e : event) : state :=
   match e with
   | SessionUp =>
@@ -138,9 +191,10 @@ Definition step (st : state) (e : event) : state :=
                      loop := LExited; inq := 0; arrived := 0; wrapped := 0 |}
              else {| refs := 1; in_map := true; registered := true; sclosed := false; wg_zero := false;
                      loop := LAccepting; inq := 0; arrived := 0; wrapped := 0 |} in
-    {| nsess := S (nsess st); sess_of := updf (sess_of st) (nsess st) x; nwr := nwr st; wr := wr st; cap := cap st;
-       backlog := backlog st; delivered := delivered st; lost := lost st; enq_log := enq_log st;
-       lmark := lmark st; closeCh := closeCh st; lreleased := lreleased st; panic := panic st |}
+    {| nsess := S (nsess st); sess_of := updf (sess_of st) (nsess st) x; nwr := nwr st; wr := wr st;
+       ncl := ncl st; cl_of := cl_of st; cap := cap st;
+       backlog := backlog st; delivered := delivered st; closing := closing st; aclosed := aclosed st;
+       enq_log := enq_log st; recv_log := recv_log st; lmark := lmark st; closeCh := closeCh st; lreleased := lreleased st; panic := panic st |}
   | StreamIn s =>
     let x := sess_of st s in
     set_sess st s {| refs := refs x; in_map := in_map x; registered := registered x; sclosed := sclosed x;
@@ -152,15 +206,17 @@ Definition step (st : state) (e : event) : state :=
                  wg_zero := wg_zero x; loop := LSelecting (nwr st); inq := pred (inq x); arrived := arrived x;
                  wrapped := S (wrapped x) |} in
     {| nsess := nsess st; sess_of := updf (sess_of st) s x'; nwr := S (nwr st);
-       wr := updf (wr st) (nwr st) {| w_sess := s; w_ord := wrapped x; w_closed := false |}; cap := cap st;
-       backlog := backlog st; delivered := delivered st; lost := lost st; enq_log := enq_log st;
-       lmark := lmark st; closeCh := closeCh st; lreleased := lreleased st; panic := panic st |}
+       wr := updf (wr st) (nwr st) {| w_sess := s; w_ord := wrapped x; w_closed := false |};
+       ncl := ncl st; cl_of := cl_of st; cap := cap st;
+       backlog := backlog st; delivered := delivered st; closing := closing st; aclosed := aclosed st;
+       enq_log := enq_log st; recv_log := recv_log st; lmark := lmark st; closeCh := closeCh st; lreleased := lreleased st; panic := panic st |}
   | Enqueue s =>
     match loop (sess_of st s) with
     | LSelecting w =>
-      {| nsess := nsess st; sess_of := updf (sess_of st) s (with_loop (sess_of st s) LAccepting);
-         nwr := nwr st; wr := wr st; cap := cap st;
-         backlog := backlog st ++ [w]; delivered := delivered st; lost := lost st; enq_log := enq_log st ++ [w];
+      {| nsess := nsess st; sess_of := updf (sess_of st) s (with_loop (sess_of st s) LPostEnq);
+         nwr := nwr st; wr := wr st; ncl := ncl st; cl_of := cl_of st; cap := cap st;
+         backlog := backlog st ++ [w]; delivered := delivered st; closing := closing st; aclosed := aclosed st;
+         enq_log := enq_log st ++ [w]; recv_log := recv_log st;
          lmark := lmark st; closeCh := closeCh st; lreleased := lreleased st; panic := panic st |}
     | _ => st
     end
@@ -168,10 +224,18 @@ Definition step (st : state) (e : event) : state :=
     match loop (sess_of st s) with
     | LSelecting w =>
       {| nsess := nsess st; sess_of := updf (sess_of st) s (with_loop (sess_of st s) LExited);
-         nwr := nwr st; wr := wr st; cap := cap st;
-         backlog := backlog st; delivered := delivered st; lost := lost st ++ [w]; enq_log := enq_log st;
+         nwr := nwr st; wr := wr st; ncl := ncl st; cl_of := cl_of st; cap := cap st;
+         backlog := backlog st; delivered := delivered st; closing := closing st ++ [w]; aclosed := aclosed st;
+         enq_log := enq_log st; recv_log := recv_log st;
          lmark := lmark st; closeCh := closeCh st; lreleased := lreleased st; panic := panic st |}
     | _ => st
+    end
+  | PostCheck s =>
+    set_sess st s (with_loop (sess_of st s) (if closeCh st then LDraining else LAccepting)) false
+  | GDrain s =>
+    match backlog st with
+    | [] => set_sess st s (with_loop (sess_of st s) LExited) false
+    | _ => take_head st
     end
   | SessionDie s =>
     let x := sess_of st s in
@@ -190,34 +254,50 @@ Definition step (st : state) (e : event) : state :=
     match backlog st with
     | [] => st
     | w :: r =>
-      {| nsess := nsess st; sess_of := sess_of st; nwr := nwr st; wr := wr st; cap := cap st;
-         backlog := r; delivered := delivered st ++ [w]; lost := lost st; enq_log := enq_log st;
+      {| nsess := nsess st; sess_of := sess_of st; nwr := nwr st; wr := wr st; ncl := ncl st; cl_of := cl_of st; cap := cap st;
+         backlog := r; delivered := delivered st ++ [w]; closing := closing st; aclosed := aclosed st;
+         enq_log := enq_log st; recv_log := recv_log st ++ [w];
          lmark := lmark st; closeCh := closeCh st; lreleased := lreleased st; panic := panic st |}
     end
   | AcceptFail => st
-  | WClose w =>
-    let x := wr st w in
-    if w_closed x then st
-    else
-      let s := w_sess x in
-      {| nsess := nsess st; sess_of := updf (sess_of st) s (done1 (sess_of st s)); nwr := nwr st;
-         wr := updf (wr st) w {| w_sess := s; w_ord := w_ord x; w_closed := true |}; cap := cap st;
-         backlog := backlog st; delivered := delivered st; lost := lost st; enq_log := enq_log st;
-         lmark := lmark st; closeCh := closeCh st; lreleased := lreleased st;
-         panic := panic st || done_panics (sess_of st s) |}
-  | LMark =>
-    {| nsess := nsess st; sess_of := sess_of st; nwr := nwr st; wr := wr st; cap := cap st;
-       backlog := backlog st; delivered := delivered st; lost := lost st; enq_log := enq_log st;
-       lmark := true; closeCh := closeCh st; lreleased := lreleased st; panic := panic st |}
-  | LSignal =>
-    {| nsess := nsess st; sess_of := sess_of st; nwr := nwr st; wr := wr st; cap := cap st;
-       backlog := backlog st; delivered := delivered st; lost := lost st; enq_log := enq_log st;
-       lmark := lmark st; closeCh := true; lreleased := lreleased st; panic := panic st |}
-  | LRelease =>
-    {| nsess := nsess st; sess_of := release1 (nsess st) (sess_of st); nwr := nwr st; wr := wr st; cap := cap st;
-       backlog := backlog st; delivered := delivered st; lost := lost st; enq_log := enq_log st;
-       lmark := lmark st; closeCh := closeCh st; lreleased := true;
-       panic := panic st || release_panics (nsess st) (sess_of st) |}
+  | WClose w => close_wrapper st w
+  | CloseTaken w =>
+    let st1 := close_wrapper st w in
+    {| nsess := nsess st1; sess_of := sess_of st1; nwr := nwr st1; wr := wr st1; ncl := ncl st1; cl_of := cl_of st1; cap := cap st1;
+       backlog := backlog st1; delivered := delivered st1; closing := remove_w w (closing st1); aclosed := aclosed st1 ++ [w];
+       enq_log := enq_log st1; recv_log := recv_log st1; lmark := lmark st1; closeCh := closeCh st1; lreleased := lreleased st1; panic := panic st1 |}
+  | LCall =>
+    {| nsess := nsess st; sess_of := sess_of st; nwr := nwr st; wr := wr st;
+       ncl := S (ncl st); cl_of := updf (cl_of st) (ncl st) CStart; cap := cap st;
+       backlog := backlog st; delivered := delivered st; closing := closing st; aclosed := aclosed st;
+       enq_log := enq_log st; recv_log := recv_log st; lmark := lmark st; closeCh := closeCh st; lreleased := lreleased st; panic := panic st |}
+  | LStep k =>
+    match cl_of st k with
+    | CStart =>
+      if lmark st then set_cl st k CDrain
+      else
+        {| nsess := nsess st; sess_of := sess_of st; nwr := nwr st; wr := wr st; ncl := ncl st;
+           cl_of := updf (cl_of st) k CSig; cap := cap st;
+           backlog := backlog st; delivered := delivered st; closing := closing st; aclosed := aclosed st;
+           enq_log := enq_log st; recv_log := recv_log st; lmark := true; closeCh := closeCh st; lreleased := lreleased st; panic := panic st |}
+    | CSig =>
+      {| nsess := nsess st; sess_of := sess_of st; nwr := nwr st; wr := wr st; ncl := ncl st;
+         cl_of := updf (cl_of st) k CDrain; cap := cap st;
+         backlog := backlog st; delivered := delivered st; closing := closing st; aclosed := aclosed st;
+         enq_log := enq_log st; recv_log := recv_log st; lmark := lmark st; closeCh := true; lreleased := lreleased st; panic := panic st |}
+    | CDrain =>
+      match backlog st with
+      | [] => set_cl st k CRel
+      | _ => take_head st
+      end
+    | CRel =>
+      {| nsess := nsess st; sess_of := release1 (nsess st) (sess_of st); nwr := nwr st; wr := wr st; ncl := ncl st;
+         cl_of := updf (cl_of st) k CDone; cap := cap st;
+         backlog := backlog st; delivered := delivered st; closing := closing st; aclosed := aclosed st;
+         enq_log := enq_log st; recv_log := recv_log st; lmark := lmark st; closeCh := closeCh st; lreleased := true;
+         panic := panic st || release_panics (nsess st) (sess_of st) |}
+    | CDone => st
+    end
   end.
 
 (* an event that is not enabled in the current state does not happen *)
@@ -236,6 +316,13 @@ Fixpoint count (f : nat -> bool) (n : nat) : nat :=
 Definition open_w (st : state) (s : nat) : nat :=
   count (fun w => Nat.eqb (w_sess (wr st w)) s && negb (w_closed (wr st w))) (nwr st).
 Definition b2z (b : bool) : Z := if b then 1 else 0.
+
+(* the adapter is at rest: no Close call in progress, no accept goroutine between its select and
+   the follow-up of the branch it took, no conn taken aside and not yet Closed *)
+Definition at_rest (st : state) : bool :=
+  forallb (fun k => is_cdone (cl_of st k)) (seq 0 (ncl st))
+  && forallb (fun s => match loop (sess_of st s) with LAccepting | LExited => true | _ => false end) (seq 0 (nsess st))
+  && match closing st with [] => true | _ => false end.
 
 (* ------------------------------------------------------------------------------------------ *)
 (* Part 2: Read / Write                                                                         *)
